@@ -269,3 +269,39 @@ def carried_between_iterations(fn):
             if readers:
                 out.append((st, n))
     return out
+
+
+def swapped_arguments(prog, mi):
+    """[(call, callee name, argument name, parameter it lands in)]: a positional argument that is a plain name identical to the name of
+    *another* parameter of the resolved callee (a constructor or function of the analysed program), while the parameter of its own name is
+    given something else -- two arrays of the same type passed in the wrong order raise no error."""
+    out = []
+    callees = {}
+    for c in prog.classes.values():
+        init = c.methods.get('__init__')
+        if init is not None:
+            callees.setdefault(c.name, []).append((init, True))
+    for m in prog.modules.values():
+        for n, f in m.functions.items():
+            callees.setdefault(n, []).append((f, False))
+    for fn in [n for n in ast.walk(mi.tree) if isinstance(n, ast.FunctionDef)]:
+        for call in [c for c in ast.walk(fn) if isinstance(c, ast.Call) and isinstance(c.func, ast.Name) and c.func.id in callees]:
+            cands = callees[call.func.id]
+            if len(cands) != 1 or len(call.args) < 2:
+                continue
+            callee, skip = cands[0]
+            ps = [a.arg for a in callee.args.posonlyargs + callee.args.args]
+            if skip:
+                ps = ps[1:]
+            if any(isinstance(a, ast.Starred) for a in call.args):
+                continue
+            bound = dict(zip(ps, call.args))
+            for k in call.keywords:
+                if k.arg:
+                    bound[k.arg] = k.value
+            for p, a in zip(ps, call.args):
+                if isinstance(a, ast.Name) and a.id != p and a.id in ps:
+                    other = bound.get(a.id)
+                    if other is None or not (isinstance(other, ast.Name) and other.id == a.id):
+                        out.append((call, call.func.id, a.id, p))
+    return out
